@@ -394,7 +394,8 @@ def w(ctx, rep, prog):
     # region of an allowed writer — computed as a fixpoint, so helpers of helpers count too
     from .. import wiring
     ow = wiring.output_writer(ctx, prog)
-    allowed = {a for a in ALLOWED_WRITERS if not a.endswith('check_write_file')} | {ow['mir']}
+    from . import c17 as _c17
+    allowed = {a for a in ALLOWED_WRITERS if not a.endswith('check_write_file') and 'swift' not in a} | {ow['mir']} | set(_c17.gen_writers(ctx, prog))
 
     def allowed_name(fn):
         return any(fn == a or fn.endswith(a) for a in allowed)
